@@ -6,7 +6,7 @@ N=$(echo $P | sed 's/C0*//')
 cd "$(dirname "$0")/.."
 export VERIF_ROOT="$(pwd)"
 python3 tools/srcfacts.py >/dev/null
-(cd harness && cargo build --release --offline 2>&1 | grep -E "^error" -A8 | head -30)
+(cd harness && cargo build --release --offline 2>&1 | grep -E "^error" -A8 | head -30; cargo build --release --offline >/dev/null 2>&1) || { echo "HARNESS BUILD FAILED"; exit 1; }
 (cd coq && make -j16 2>&1 | grep -v "^COQ\|^Closed" | head -30; make -j16 >/dev/null 2>&1) || { echo "COQ BUILD FAILED"; exit 1; }
 (cd driver && ocamlfind ocamlopt -O3 -w -a molt_model.mli molt_model.ml driver.ml -o driver)
 ./harness/target/release/molt_harness run $P $T $S /tmp/$P.cases | cut -c1-300
